@@ -74,6 +74,9 @@ func caseGen() *rapid.Generator[Case] {
 					}
 				}
 			}
+			if gen.Rarely(t, "tall", 10) {
+				w.Tall = rapid.SampledFrom([]int{260, 300, 520}).Draw(t, "tall-rows")
+			}
 			if rapid.IntRange(0, 3).Draw(t, "customdeco") == 0 {
 				d := gen.DecoGen().Draw(t, "deco")
 				w.Deco = &d
@@ -94,7 +97,7 @@ func TestSizes(t *testing.T) {
 	for n := 0; n <= 34; n++ {
 		c := Case{Registry: true, Reps: 2, PreReg: n, Barrier: n%2 == 0, Proto: n % 10}
 		for i := 0; i < 4; i++ {
-			c.Workers = append(c.Workers, Worker{Script: script, Renders: []string{Styles[(n+i)%len(Styles)], "utf8-light"}, List: true})
+			c.Workers = append(c.Workers, Worker{Script: script, Renders: []string{Styles[(n+i)%len(Styles)], "utf8-light"}, List: true, Tall: map[bool]int{true: 300}[n%8 == 3 && i == 0]})
 		}
 		if v := prop.Eval(c); v != nil {
 			t.Fatalf("VIOLATION %s", ID)
